@@ -360,6 +360,13 @@ def gen_sequence(rng, ctx):
                 frames.append(dict(b0=fin | op, p=part))
                 if rng.random() < 0.3 and j < len(parts) - 1:
                     frames.append(dict(b0=0x89, p=b"mid"))       # control frame inside fragmented message
+                elif rng.random() < 0.15 and j < len(parts) - 1:
+                    # a close frame inside a fragmented message (the text so far may end in the middle of a code point:
+                    # the close reason is judged on its own)
+                    code = rng.choice(CLOSE_CODES[:12])
+                    frames.append(dict(b0=0x88, p=bytes([code >> 8, code & 0xFF]) + rng.choice([b"", b"bye", "tsch\u00fc\u00df \u20ac".encode(), b"x" * 123])))
+                    frames.append(dict(b0=0x80, p=b"rest"))
+                    return frames
             if faulty and rng.random() < 0.3:
                 frames.append(dict(b0=0x80, p=b"stray"))            # continuation outside
         elif kind == "ping":
